@@ -178,12 +178,20 @@ def analyse_real(path, spec_lines, admit, slack_us):
     if len(spec_lines) != len(data):
         res['problems'].append(('stream-length', 'impl=%d spec=%d' % (len(data), len(spec_lines)), []))
     req = None
+    jitter = {}
+    for l in data:
+        if ' batch=1 ' in l:
+            d = kv(l); jitter[d.get('id')] = int(d.get('jitter_us', '0'))
+    res['bound_candidates'] = []
+    res['max_jitter_us'] = max(jitter.values()) if jitter else 0
     for l, sp in zip(data, spec_lines):
         if l.startswith('realreq'):
             req = l; continue
         d = kv(l)
         if 'skipped' in d:
             res['skipped'].append('%s/%s' % (d.get('class'), d.get('net'))); continue
+        if ' hung ' in l:
+            res['problems'].append(('impl-violates-spec', 'a dial did not return within %s us: %s' % (d.get('after_us'), l), [req])); continue
         if ' panic ' in l:
             res['problems'].append(('impl-violates-spec', 'dial panicked: ' + l, [req])); continue
         if d.get('batch') == '1':
@@ -209,8 +217,11 @@ def analyse_real(path, spec_lines, admit, slack_us):
         if tmo > 0 and api == 'dial' and d['net'] != 'unix':
             over = int(d['elapsed_us']) - tmo
             if res['max_over_us'] is None or over > res['max_over_us']: res['max_over_us'] = over
-            if over > slack_us:
-                res['problems'].append(('impl-violates-spec', 'dial returned %d us after its timeout (slack %d us): %s' % (over, slack_us, l), [req]))
+            # the bound is wall-clock: allow for the scheduling noise measured by the canary while this request ran,
+            # and report only what re-running the request confirms (checks/c14.py)
+            allowed = slack_us + 4 * jitter.get(d.get('id'), 0)
+            if over > allowed:
+                res['bound_candidates'].append((over, allowed, l, req))
                 continue
         # the model admits the outcome of this class
         if d['net'] == 'host':
@@ -229,7 +240,7 @@ def exec_real(binary, wd, seed, tier, replay=None, loops=1):
     if replay:
         cmd += ['-replay', replay]
     p = subprocess.run(cmd, timeout=1800, stdout=subprocess.PIPE, stderr=subprocess.STDOUT, text=True)
-    if p.returncode != 0:
+    if p.returncode not in (0, 3):     # 3: a dial did not return (reported in the output as a `hung` line)
         raise RuntimeError('real-socket harness exited with %d (seed %s): %s' % (p.returncode, seed, p.stdout[-3000:]))
     return out
 
